@@ -401,6 +401,9 @@ pub fn run() {
             "snap" => {
                 snapshot(&mut out, &cfg.root);
             }
+            "sleep" => {
+                std::thread::sleep(std::time::Duration::from_millis(f[1].parse().unwrap()));
+            }
             "op" => {
                 step += 1;
                 let h: usize = if f[1] == "-" { 0 } else { f[1].parse().unwrap() };
